@@ -353,6 +353,30 @@ def reinidx (c impl : List String) : Option Verdict := do
            else if got != want then "a plugin was not prepared for the interface found at a re-initialisation: its source of system state is still bound to the interface index of an earlier incarnation"
            else "" }
 
+/-- `reinrs tf k | dials answeredFirst answeredLast`: a solicitation after `k` re-initialisations inside
+    one Run is answered exactly once on the current connection, like one in the first incarnation (C07) -/
+def reinrs (c impl : List String) : Option Verdict := do
+  let (_tf, k) ← P.run (do let a ← P.int; let k ← P.nat; pure (a, k)) c
+  let (dials, first, last) ← P.run (do let d ← P.nat; let f ← P.int; let l ← P.int; pure (d, f, l)) impl
+  let ok := dials == k + 1 && first == 1 && last == 1
+  pure { model := s!"{k + 1} 1 1", oracle := ok, nontrivial := true,
+         note := if dials != k + 1 then "the interface was not re-established once per link-state change"
+           else if first != 1 then "a valid solicitation in the first incarnation was not answered exactly once"
+           else if last != 1 then "a valid solicitation after a re-initialisation was not answered exactly once (something of an earlier incarnation swallows or repeats the scheduled RAs of the new one)"
+           else "" }
+
+/-- `nsf kind | alive invalid answered`: a message of a type the advertiser ignores arrives while the
+    interface's state cannot be read: counted invalid, ignored, the advertiser keeps serving (C09) -/
+def nsf (c impl : List String) : Option Verdict := do
+  let _kind ← P.run P.nat c
+  let (alive, inv, ans) ← P.run (do let a ← P.bool; let i ← P.nat; let n ← P.nat; pure (a, i, n)) impl
+  let ok := alive && inv == 1 && ans == 1
+  pure { model := "1 1 1", oracle := ok, nontrivial := true,
+         note := if !alive then "a message of a type the advertiser ignores ended the advertiser (it needs no RA to be built, so an unreadable interface state cannot matter to it)"
+           else if inv != 1 then "the message was not counted invalid exactly once"
+           else if ans != 1 then "a valid solicitation after the ignored message was not answered"
+           else "" }
+
 /-- `flap monitor tf k | dials oldUse served`: the link drops at `tf` and again during each of the
     next `k` dials (the notification is queued before the new incarnation watches the channel).
     Every link-state change tears the task down and the interface is re-established (C10):
